@@ -119,6 +119,8 @@ def _build(case):
                     len("traced")
                 finally:
                     sys.settrace(before)
+            if case.get("test_sets_gc_threshold") and i == 0:
+                gc.set_threshold(50, 7, 3)       # a test tuning the collector for itself (all three generations)
             if case.get("last_test_resets_stdout") and i == n - 1:
                 # a test that "resets" sys.stdout to the stream that was installed before the run and leaves it there:
                 # sys.stdout is then the test's doing, but sys.stderr is still the runner's to put back
@@ -417,6 +419,11 @@ def _extras():
             for pre_trace in (False, True):
                 yield {"opts": _opts(s), "ending": ending, "ntests": 3, "at": 1, "test_sets_trace": True,
                        "pre": {"threshold": [701, 11, 9], "debug": 0, "trace": pre_trace}}
+    # a test changes all three collector thresholds while --gc was given fewer than three values
+    for ending in ("normal", "failing-tests"):
+        for g in ([200], [200, 20], [200, 20, 5]):
+            yield {"opts": dict(_opts(()), gc=g), "ending": ending, "ntests": 2, "at": 1, "test_sets_gc_threshold": True,
+                   "pre": {"threshold": [702, 12, 8], "debug": 0, "trace": False}}
     # the last test of the run sets sys.stdout back to the pre-run stream itself (only sys.stderr is left to the runner)
     for ending in ("normal", "failing-tests"):
         for s in (("buffer",), ("buffer", "coverage")):
